@@ -130,6 +130,14 @@ CLAIMED = {
             "names unique and the registry exact.", "4/C14",
             "symbolic execution of the real assembly / scatter code on z3-term states (equalities decided by the symbolic normal form / z3) + bounded exhaustive registry histories; float cross-check on the unshimmed code",
             "Bounded: three system families, registry histories of length <= 3 (quick) / 4; PD/PID controllers are exercised in C08 instead."),
+    "C17": ("proof", "Inductive step from an arbitrary symbolic state: the real Moreau.step is executed with the linear solve stubbed by the LU contract and "
+            "the rows of its recorded linear system are proved identical to the momentum balance and to -g_dot at the midpoint configuration evaluated at "
+            "the solution (so the midpoint velocity constraints hold exactly at every step); BackwardEuler.R_x and Rattle.R_x1 rows identical to "
+            "g/gamma/c at (t_{n+1}, q_{n+1}); step_callback normalises quaternions and leaves g, g_dot unchanged; ScipyIVP multipliers satisfy the "
+            "equations of motion and g_ddot = 0.", "4/C17",
+            "symbolic execution of the real solver step / residual code on z3 terms with the LU contract (rows-as-identities) + z3 nlsat per scalar obligation; float replay",
+            "Per-step algebraic guarantees only: Rattle stage 2, ScipyDAE drift, DualStormerVerlet and accumulated error over many steps are outside; "
+            "'within solver tolerance' follows by composition with C22 (argued in DESIGN)."),
 }
 
 NOT_APPLICABLE = {
